@@ -1,7 +1,7 @@
 (* C02 -- deepening round: (2) exact read-back statements without the non-empty hypothesis,
    (1) totality of mixing with the phase-set expansion of MaterialIndexer.copy_like between MultiStreams. *)
 From Coq Require Import Sorted.
-From V Require Import Common.NumFacts C02.Model C02.Proofs.
+From V Require Import Common.NumFacts C02.Model C02.ModelX C02.Proofs.
 Open Scope Q_scope.
 
 (* ------------------------------------------------------------------ (2) what an assignment leaves, exactly *)
@@ -95,24 +95,8 @@ Qed.
            self.empty()
            for i, j in other: data[phase_indexer(i)] = j
    followed by the copy of T and P (MultiStream.copy_like).  Model.v stops at this branch with an error; here it is. *)
-(* PhaseIndexer.compatible_with: the lower-cased sorted phases agree *)
-Definition compat (ps qs : list phase) : bool := list_eqb Nat.eqb (map lowerp ps) (map lowerp qs).
-(* data[phase_indexer(i)] = j for every row of the source, in order (a later row overwrites an earlier one) *)
-Definition place_rows (ps : list phase) (n : nat) (o : pmol) : pmol :=
-  map (fun q => (q, match find (fun pv => (target_phase ps (fst pv) =? q)%nat) (rev o) with
-                    | Some pv => snd pv
-                    | None => vzero n
-                    end)) ps.
-Definition copy_like_mm (self other : stream) : stream :=
-  if list_eqb Nat.eqb (phases self) (phases other) then mkS true (pm other) (sT other) (sP other)
-  else
-    let ps := if compat (phases self) (phases other) then phases self
-              else phase_set (phases self ++ phases other) in
-    mkS true (place_rows ps (ncomp self) (pm other)) (sT other) (sP other).
-Definition copy_like_x (self other : stream) (same : bool) : res stream :=
-  if multi self && negb same && multi other then Ok (copy_like_mm self other)
-  else copy_like self other same.
-
+(* the definitions (compat, place_rows, copy_like_mm, copy_like_x, mix_from_x) are in ModelX.v, where the
+   correspondence executes them *)
 (* the extended copy never raises ... *)
 Lemma copy_like_x_total self other same : exists s1, copy_like_x self other same = Ok s1.
 Proof.
@@ -146,21 +130,6 @@ Proof.
   destruct same; [discriminate|]. destruct (multi other); [|discriminate].
   destruct (list_eqb Nat.eqb (phases self) (phases other)); [discriminate|]. auto.
 Qed.
-
-(* Stream.mix_from with that copy_like: only the one-non-empty-inlet shortcut calls copy_like *)
-Definition mix_from_x (O : oracles) (st : store) (r : nat) (others : list inlet) (Q0 : Q) : res store :=
-  match streams_of st others with
-  | [i] =>
-      do self <- sget st r;
-      do o <- sget st i;
-      do s1 <- copy_like_x self o (r =? i)%nat;
-      if qzerob (heat_of others Q0) then Ok (upd st r s1)
-      else match setH O s1 (getH O s1 + heat_of others Q0) with
-           | (s', None) => Ok (upd st r s')
-           | (_, Some e) => Err e
-           end
-  | _ => mix_from O st r others Q0
-  end.
 
 Lemma mix_from_x_refines O st r others Q0 st' :
   mix_from O st r others Q0 = Ok st' -> mix_from_x O st r others Q0 = Ok st'.
